@@ -143,7 +143,13 @@ fn gen_candidate(rng: &mut Rng, ring: &mut KeyRing, m: &GwModel, class: &str) ->
             if t == u128::MAX {
                 return None;
             }
-            s.threshold = t + 1;
+            // just beyond the total, or far beyond it (where a signed or narrowed comparison wraps)
+            s.threshold = match rng.below(4) {
+                0 => u128::MAX,
+                1 => (1u128 << 127).max(t + 1),
+                2 => (1u128 << 127).saturating_add(t).max(t + 1),
+                _ => t + 1,
+            };
         }
         "earlier-verbatim" => {
             s = rng.pick(&m.sets).clone();
@@ -330,7 +336,10 @@ fn constructor_attempts(ctx: &Ctx, rep: &mut Report, rng: &mut Rng) {
             .with_address(factory.clone(), BytesN::from_array(&u.env, &salt))
             .deployed_address();
         let vargs = gateway_ctor_args(&u.env, &owner, &operator, &domain, 0, retention, &[valid.clone()]);
-        u.prime(&predicted, AxelarGateway, vargs);
+        if !u.prime(&predicted, AxelarGateway, vargs) {
+            rep.violation("construction-refused:well-formed-set", "the constructor refused a single well-formed initial signer set".into());
+            continue;
+        }
         let args = gateway_ctor_args(&u.env, &owner, &operator, &domain, 0, retention, &initial);
         let f = factory.clone();
         rep.step(format!("construct attempt={} class={} sets={} expect_ok={}", attempt, class, initial.len(), expect_ok));
